@@ -29,7 +29,7 @@ def bounds(tier):
 
 def goals(tier):
     return ["closure-reached", "rc-of-past-the-end-location", "dihedral-2n-states", "negative-start-location-rotated",
-            "commutation-checked", "involution-checked", "rc-with-non-default-flags"]
+            "commutation-checked", "involution-checked", "rc-with-non-default-flags", "operand-unchanged-checked"]
 
 
 def units(tier):
@@ -166,6 +166,9 @@ def run_unit(unit, st, tier):
                 if kk not in seen:
                     seen[kk] = (out, exp, hist + [[op, k]])
                     nxt.append(kk)
+            if snapshot.key(obs_of(rec, n)) != key:
+                st.violation("edge", "operand-modified", dict(n=n, table_slice=[s, nsl], history=hist, op="rc", k=0), "operand unchanged", "changed")
+            st.goal("operand-unchanged-checked")
             if len(seen) > 2 * n:
                 break
         if len(seen) > 2 * n:
